@@ -131,6 +131,13 @@ def run(ctx, rep):
         for crc in ("crc::Crc8", "crc::Crc16"):
             rep.check("C16.gate", "FlacStreamReader::read => valid(%s)" % crc, fact_match(s, "valid", crc + "$"), loc_of(rb), "", "a frame is returned without the %s gate; facts %s" % (crc, fact_str(s)))
         rep.check("C16.gate", "frame samples are decoded (read_subframes) before the frame is returned", fact_match(s, "call-ok", r"decode::read_subframes$"), loc_of(rb))
+        from rules import C13
+        C13.stream_reader_error_rules(F, ok, rep, "C16.sync")
+        # the frame's samples replace (not extend) what the previous call handed out
+        clr = [(bi, t) for bi, t in rb.calls() if re.search(r"Vec::<T, A>::clear$", callee_name(t)) and "samples" in place_fields(root_place(rb, t["a"][0]) or {"p": []})]
+        ext = [(bi, t) for bi, t in rb.calls() if re.search(r"Extend<.*>>::extend$", callee_name(t)) and "samples" in place_fields(root_place(rb, t["a"][0]) or {"p": []})]
+        rep.check("C16.params", "the sample buffer handed out is cleared before the decoded frame is copied into it", len(clr) == 1 and len(ext) == 1 and rb.dominates(clr[0][0], ext[0][0]), loc_of(rb), "",
+                  "FlacStreamReader::read appends the decoded frame to the samples of earlier frames: the returned buffer starts with stale data")
         # ---- C16.sync
         sk = [t for _, t in rb.calls() if (t["f"].get("path") or "") == "std::io::BufRead::skip_until"]
         rep.check("C16.sync", "scanner advances with skip_until(0xFF)", len(sk) == 1 and op_int(sk[0]["a"][1]) == 0xFF, loc_of(rb))
